@@ -1,2 +1,157 @@
-(* placeholder, replaced below *)
-From ZI Require Import Model.Decl Spec.Provided.
+(* Property C01 — providedBy / implementedBy report exactly the declared and inherited
+   interfaces.  Only statements here; proofs are in Proofs/Decl.v.
+
+   [run true g ops]  the model of declarations.py (Model/Decl.v, cache eviction on = current code)
+                     after the history [ops] over the interface DAG [g];
+   [run false g ops] the same model without Provides.changed (the code before the fix);
+   [lrun g ops]      the abstract ledger of Spec/Provided.v after the same history.
+   Histories are arbitrary lists of class creation (multiple inheritance), instance creation,
+   instance drops and the nine declaration calls on classes, instances and class objects. *)
+From Coq Require Import List Arith Bool.
+Import ListNotations.
+From ZI Require Import Lib.Util Model.Decl Spec.Provided Proofs.Decl.
+
+(* The central statement: after every history, for every instance / class object t and every
+   class c, what the model answers to providedBy(t) and implementedBy(c) lies between the two
+   bounds of the ledger: everything declared and not redundant when declared (plus what is
+   inherited, plus what those extend) is reported, and nothing is reported that was not asked
+   for or inherited.  Inheritance stops at a class declared with an *only* form
+   (lc_inherit = false in impl_lo / impl_hi). *)
+Theorem C01_provided_within_ledger : forall g ops,
+  (forall t, incl (lo_provided g (lrun g ops) t) (provided g (run true g ops) t) /\
+             incl (provided g (run true g ops) t) (hi_provided g (lrun g ops) t)) /\
+  (forall c, incl (lo_implemented g (lrun g ops) c) (implemented g (run true g ops) c) /\
+             incl (implemented g (run true g ops) c) (hi_implemented g (lrun g ops) c)).
+Proof. exact provided_within_ledger_lemma. Qed.
+Print Assumptions C01_provided_within_ledger.
+
+(* Sharper: the model drops exactly the declarations that are redundant when made — its
+   answers (and directlyProvidedBy) are, as sets, the ledger's lower bound. *)
+Theorem C01_model_is_lower_bound : forall g ops,
+  (forall t x, In x (provided g (run true g ops) t) <-> In x (lo_provided g (lrun g ops) t)) /\
+  (forall c x, In x (implemented g (run true g ops) c) <-> In x (lo_implemented g (lrun g ops) c)) /\
+  (forall t x, In x (dpb (run true g ops) t) <-> In x (lo_dpb (lrun g ops) t)).
+Proof. exact model_is_lower_bound_lemma. Qed.
+Print Assumptions C01_model_is_lower_bound.
+
+(* I.providedBy(t) / I.implementedBy(c) agree with membership in the flattened answers,
+   in every state *)
+Theorem C01_I_providedBy_iff : forall g st,
+  (forall t i, i_providedBy g st t i = true <-> In i (provided g st t)) /\
+  (forall c i, i_implementedBy g st c i = true <-> In i (implemented g st c)).
+Proof. exact I_providedBy_iff_lemma. Qed.
+Print Assumptions C01_I_providedBy_iff.
+
+(* One declaration call changes only what it may change.  A class-level call on c leaves
+   implementedBy(d) and the instances of d alone unless d is c or currently inherits from c
+   ([depends]); it never touches what class objects provide.  An object-level call on t leaves
+   every implementedBy and every other instance / class object alone.  (Either cache flavour.) *)
+Theorem C01_non_interference : forall ev g st o,
+  (forall c, decl_class o = Some c ->
+     (forall d, depends st d c = false -> implemented g (step ev g st o) d = implemented g st d) /\
+     (forall o' r, nth_error (insts st) o' = Some r -> depends st (i_cls r) c = false ->
+        provided g (step ev g st o) (TInst o') = provided g st (TInst o') /\
+        dpb (step ev g st o) (TInst o') = dpb st (TInst o')) /\
+     (forall c', provided g (step ev g st o) (TCls c') = provided g st (TCls c') /\
+                 dpb (step ev g st o) (TCls c') = dpb st (TCls c'))) /\
+  (forall t, decl_target o = Some t ->
+     (forall d, implemented g (step ev g st o) d = implemented g st d) /\
+     (forall t', t' <> t -> provided g (step ev g st o) t' = provided g st t' /\
+                            dpb (step ev g st o) t' = dpb st t')).
+Proof. exact non_interference_lemma. Qed.
+Print Assumptions C01_non_interference.
+
+(* The shared cache is invisible: deleting from a history every declaration call made on
+   OTHER instances changes nothing in what instance o provides, now or later.  This is the
+   statement that needs Provides.changed (it is refuted below for the model without it). *)
+Theorem C01_history_non_interference : forall g ops o,
+  let ops' := filter (fun p => negb (other_inst_decl o p)) ops in
+  (forall x, In x (provided g (run true g ops) (TInst o)) <-> In x (provided g (run true g ops') (TInst o))) /\
+  (forall x, In x (dpb (run true g ops) (TInst o)) <-> In x (dpb (run true g ops') (TInst o))).
+Proof. exact history_non_interference_lemma. Qed.
+Print Assumptions C01_history_non_interference.
+
+(* the invariant behind it: every specification in InstanceDeclarations is what
+   Provides(cls, *args) would build now *)
+Theorem C01_cache_entries_fresh : forall g ops d args k,
+  In ((d, args), k) (cache (run true g ops)) -> k = keepnew (cflat g (run true g ops) d) args.
+Proof. exact cache_entries_fresh_lemma. Qed.
+Print Assumptions C01_cache_entries_fresh.
+
+(* Without the eviction the three statements above fail on the 5-call history of finding F1:
+   the lower bound is missed (directlyProvides(b, I0) leaves I0 unreported), the answer depends
+   on a declaration made on another instance, and the cache holds a stale specification. *)
+Theorem C01_stale_cache_refuted_without_eviction :
+  exists g ops o,
+    ~ incl (lo_provided g (lrun g ops) (TInst o)) (provided g (run false g ops) (TInst o)) /\
+    ~ (forall x, In x (provided g (run false g ops) (TInst o)) <->
+                 In x (provided g (run false g (filter (fun p => negb (other_inst_decl o p)) ops)) (TInst o))) /\
+    (exists k, In ((0, [0]), k) (cache (run false g ops)) /\
+               k <> keepnew (cflat g (run false g ops) 0) [0]).
+Proof. exact stale_cache_refuted_lemma. Qed.
+Print Assumptions C01_stale_cache_refuted_without_eviction.
+
+(* A class's own __provides__ never shows up on its instances (nor in implementedBy), and an
+   instance's never on a class object. *)
+Theorem C01_class_instance_no_leak : forall ev g st o,
+  (forall c, decl_target o = Some (TCls c) ->
+     (forall d, implemented g (step ev g st o) d = implemented g st d) /\
+     (forall o', provided g (step ev g st o) (TInst o') = provided g st (TInst o') /\
+                 dpb (step ev g st o) (TInst o') = dpb st (TInst o'))) /\
+  (forall o1, decl_target o = Some (TInst o1) ->
+     forall c, provided g (step ev g st o) (TCls c) = provided g st (TCls c) /\
+               dpb (step ev g st o) (TCls c) = dpb st (TCls c)).
+Proof. exact class_instance_no_leak_lemma. Qed.
+Print Assumptions C01_class_instance_no_leak.
+
+(* noLongerProvides raises exactly when the interface is still provided afterwards *)
+Theorem C01_noLongerProvides_raises_iff : forall ev g st t x,
+  raises g (step ev g st (NoLongerProvides t x)) (NoLongerProvides t x) = true <->
+  In x (provided g (step ev g st (NoLongerProvides t x)) t).
+Proof. exact raises_iff_lemma. Qed.
+Print Assumptions C01_noLongerProvides_raises_iff.
+
+(* "plus everything those interfaces extend": the closure used on both sides is reachability
+   in the interface DAG *)
+Theorem C01_closure_is_reachability : forall g, wf_igraph g -> forall x y,
+  In y (ups g x) <-> Reach g x y.
+Proof. exact ups_iff_reach. Qed.
+Print Assumptions C01_closure_is_reachability.
+
+(* "declared on its class or inherited from the class's bases, stopping at *only*": the
+   ledger's impl sets are the inheritance relation [Impl] (no fuel artefact) *)
+Theorem C01_ledger_impl_is_inheritance : forall g ops c x,
+  (In x (impl_lo (lrun g ops) c) <-> Impl lc_kept (lcs (lrun g ops)) c x) /\
+  (In x (impl_hi (lrun g ops) c) <-> Impl lc_asked (lcs (lrun g ops)) c x).
+Proof. exact ledger_impl_is_inheritance_lemma. Qed.
+Print Assumptions C01_ledger_impl_is_inheritance.
+
+(* ---- non-vacuity.  I1 extends I0; I2 alone.  C2(C0, C1): multiple inheritance. *)
+Definition ex_g : igraph := [[]; [0]; []].
+Definition ex_ops : list op :=
+  [NewClass []; Implementer 0 [1]; NewClass []; NewClass [0; 1]; NewInstance 2;
+   DirectlyProvides (TInst 0) [0; 2];      (* I0 is redundant (C2 inherits I1 from C0): dropped *)
+   ClassImplementsOnly 0 [2];              (* the base is narrowed: the shared declaration is evicted *)
+   NewInstance 2; DirectlyProvides (TInst 1) [0; 2];  (* same arguments: now I0 is kept, I2 dropped *)
+   NewInstance 1; Provider (TCls 1) [1]; AlsoProvides (TInst 2) [1]; NoLongerProvides (TInst 2) 1].
+
+Example C01_witness :
+  wf_igraph ex_g /\
+  let st := run true ex_g ex_ops in
+  provided ex_g st (TInst 0) = [2; 2] /\     (* asked I0, I2; I0 redundant when made, lost with the base *)
+  provided ex_g st (TInst 1) = [0; 2] /\
+  lo_provided ex_g (lrun ex_g ex_ops) (TInst 0) = [2; 2] /\
+  hi_provided ex_g (lrun ex_g ex_ops) (TInst 0) = [0; 2; 2] /\
+  implemented ex_g st 2 = [2] /\ implemented ex_g st 1 = [] /\
+  provided ex_g st (TCls 1) = [1; 0] /\ provided ex_g st (TInst 2) = [] /\
+  depends st 2 0 = true /\ depends st 1 0 = false /\
+  cache st <> [] /\
+  filter (fun p => negb (other_inst_decl 1 p)) ex_ops <> ex_ops /\
+  raises ex_g (run true ex_g (firstn 12 ex_ops ++ [NoLongerProvides (TInst 1) 0]))
+         (NoLongerProvides (TInst 1) 0) = false /\
+  raises ex_g (run true ex_g (firstn 12 ex_ops ++ [NoLongerProvides (TInst 1) 2]))
+         (NoLongerProvides (TInst 1) 2) = true.
+Proof.
+  split; [apply wf_igraphb_ok; reflexivity|].
+  vm_compute. repeat split; try reflexivity; discriminate.
+Qed.
